@@ -401,6 +401,21 @@ def op_tal_handler(job):
                     except BaseException as e:
                         row["direct_exc"] = type(e).__name__ + ": " + str(e)
                 results.append(row)
+            # a history in ONE process: files are rewritten between requests (optionally with their old mtime restored,
+            # as cp -p / rsync -t / an editor within the same second would leave them)
+            import os
+            for step in spec.get("steps", []):
+                if "write" in step:
+                    path = os.path.join(os.fsencode(w.root), drv.s2b(step["write"]).lstrip(b"/"))
+                    with open(path, "wb") as f:
+                        f.write(drv.s2b(step["data"]))
+                    if step.get("mtime") is not None:
+                        os.utime(path, (step["mtime"], step["mtime"]))
+                else:
+                    del canary()[:]
+                    r = drv.serve_once(w.config, drv.s2b(step["serve"] + "\r\n"))
+                    results.append({"selector": step["serve"], "out": r["out"], "exc": r["exc"], "log": r["log"][-3:],
+                                    "canary": list(canary()), "label": spec.get("label"), "step": step.get("id")})
         finally:
             w.close()
     return results
